@@ -391,3 +391,34 @@ func ClockReadCount() int64 {
 	}
 	return *ClockReads
 }
+
+// ---------------------------------------------------------------- map iteration order
+//
+// A range over a map in the library visits the keys in an order the simulator chooses (the
+// instrumenter rewrites it to range over verifsim.SortedKeys): a fresh pseudo-random permutation
+// for every range, from a generator that restarts with every run. Code whose result depends on
+// that order gives different results on different calls, as it does on the real runtime – but
+// reproducibly.
+
+var orderState uint64
+
+// ResetOrder restarts the permutation generator (called at the start of a run).
+//
+//go:norace
+func ResetOrder(seed uint64) { orderState = seed ^ 0x6f72646572 }
+
+// MapOrder is installed as verifsim.OrderHook.
+//
+//go:norace
+func MapOrder(n int, swap func(i, j int)) {
+	for i := n - 1; i > 0; i-- {
+		orderState += 0x9e3779b97f4a7c15
+		z := orderState
+		z = (z ^ (z >> 30)) * 0xbf58476d1ce4e5b9
+		z = (z ^ (z >> 27)) * 0x94d049bb133111eb
+		z ^= z >> 31
+		if j := int(z % uint64(i+1)); j != i {
+			swap(i, j)
+		}
+	}
+}
